@@ -30,6 +30,9 @@ mod test_utils;
 
 /// Verification hooks (feature `verif`, off by default): re-exports of crate-private items for external harnesses.
 #[cfg(feature = "verif")]
+pub mod verif_sync;
+
+#[cfg(feature = "verif")]
 pub mod verif {
     pub use crate::tx_index::{Data, Key, TxIndex, Type, Value};
 }
